@@ -158,7 +158,11 @@ Definition cstep (cw : cworld) (ev : cev) : option (cworld * cout) :=
       | Some (sw', ODone) =>
           let e := length (st (ww (gw cw))) in
           match gfb sw' r e with
-          | Some b => Some ({| gw := sw'; iw := iw cw; ucs := set_nth r {| cb := added (v_keep_newest V) cap b e (cb u); ci := ci u |} (ucs cw) |}, CDone)
+          | Some b =>
+              let cb' := added (v_keep_newest V) cap b e (cb u) in
+              (* when the new entity was evicted on the spot, entityUpdated fails ("entity missing from cache"): New reports an error *)
+              Some ({| gw := sw'; iw := iw cw; ucs := set_nth r {| cb := cb'; ci := ci u |} (ucs cw) |},
+                    match kget e (sl cb') with Some _ => CDone | None => CFail end)
           | None => None
           end
       | Some (_, _) => Some (cw, CFail)
